@@ -4,10 +4,10 @@
 import json, os, subprocess, sys, tempfile, shutil, concurrent.futures, threading
 env=dict(os.environ, GOFLAGS='-mod=mod', GOPROXY='off', GOSUMDB='off', GOTOOLCHAIN='local', GOWORK='off')
 muts=[json.loads(l) for l in open(sys.argv[1] if len(sys.argv)>1 else '/tmp/mutants.jsonl')]
-out=open('/tmp/mutres.jsonl','a')
+OUT=os.environ.get('OUT','/tmp/mutres.jsonl'); out=open(OUT,'a')
 done=set()
 try:
-    for l in open('/tmp/mutres.jsonl'): done.add(json.loads(l)['id'])
+    for l in open(OUT): done.add(json.loads(l)['id'])
 except Exception: pass
 lock=threading.Lock()
 local=threading.local()
